@@ -558,6 +558,85 @@ def check(ctx):
     ctx.require(n >= 2, "C13.8: result loader instances not found")
 
 
+_E2E = {}
+
+
+def _labels_end_to_end(prog):
+    """Which label does the table column of result file i get, for the
+    command lines without and with --use_filenames?  evo_res is interpreted
+    from the parsed namespace (lib.cli_namespace) through the loader, however
+    the option travels (a flag, a dest shared with another option, explicit
+    labels computed by a helper).  {given flags: (verdict, message)} with
+    verdict True (file name iff --use_filenames), False (a definite other
+    label), None (not decided)."""
+    key = id(prog)
+    if key in _E2E:
+        return _E2E[key]
+    from ..lib import cli_namespace
+    PB = "evo.tools.pandas_bridge."
+    out = {}
+    args_p = tm.param("args")
+    RF = tm.attr(args_p, "result_files")
+    h = prog.func("evo.main_res.run")
+
+    def plain(t: T) -> T:
+        # list(X) / tuple(X) of the file list keep order and entries
+        return t.map(lambda x: x.args[1][0] if is_call_to(
+            x, "builtins.list", "builtins.tuple") and len(x.args[1]) == 1
+            and not x.args[2] else None)
+    for given in ((), ("--use_filenames",)):
+        try:
+            ns = cli_namespace(prog, "evo.main_res_parser", given)
+            if ns is None:
+                out[given] = (None, "option action not modelled")
+                continue
+            preset = {(args_p, d): v for d, v in ns.items() if v is not None}
+            it = Interp(prog, inline=lambda fn: fn.qualname ==
+                        PB + "load_results_as_dataframe", max_depth=4)
+            it.attr_absent = lambda b, n, ns=ns: b is args_p and n not in ns
+            rh = it.run(h, preset_attrs=preset)
+        except Exception as ex:           # noqa: BLE001 - any analysis gap
+            out[given] = (None, f"interpretation failed: {ex}")
+            continue
+        live = lambda e: not tm.is_const(e.live, False)
+        loads = [e for e in rh.calls(
+            "evo.tools.file_interface.load_res_file") if live(e)]
+        rts = [e for e in rh.calls(PB + "result_to_df") if live(e)]
+        if len(loads) != 1 or len(rts) != 1:
+            out[given] = (None, f"{len(loads)} load / {len(rts)} tabulate "
+                                f"calls remain")
+            continue
+        fa = plain(loads[0].data["args"][0])
+        lab = (rts[0].data["bound"] or {}).get("label")
+        lab = plain(lab) if lab is not None else tm.NONE
+        ro = (rts[0].data["bound"] or {}).get("result_obj")
+        if not (fa.op == "elem" and fa.args[0] is RF and
+                ro is loads[0].data["result"]):
+            out[given] = (None, f"file {fmt(fa)} / object {fmt(ro)}")
+            continue
+        want = fa if given else tm.NONE
+        if lab is want:
+            out[given] = (True, "")
+        elif lab is tm.NONE or lab is fa or tm.is_const(lab):
+            out[given] = (False, f"with {' '.join(given) or 'no option'} "
+                          f"the column of a file is labelled {fmt(lab)}, "
+                          f"expected {'the file name' if given else 'the est_name of the result (label None)'}")
+        else:
+            out[given] = (None, f"label {fmt(lab)[:100]}")
+    _E2E[key] = out
+    return out
+
+
+def _e2e_verdict(prog):
+    e = _labels_end_to_end(prog)
+    if all(v[0] is True for v in e.values()):
+        return True, ""
+    bad = [v[1] for v in e.values() if v[0] is False]
+    if bad:
+        return False, bad[0]
+    return None, "; ".join(v[1] for v in e.values() if v[0] is None)
+
+
 def _res_parser(ctx, prog):
     """C13.7: 'for every input result file ... in input order': the list the
     user typed must reach run() as typed — a parse-time transformation of
@@ -584,6 +663,21 @@ def _res_parser(ctx, prog):
         ok = len(hit) == 1 and isinstance(hit[0][0].get("action"),
                                           ast.Constant) and \
             hit[0][0]["action"].value == "store_true"
+        if not ok and name == "--use_filenames":
+            # the option may travel differently (a dest it shares with a
+            # newer option ...): what counts is the label that arrives
+            v, why = _e2e_verdict(prog)
+            if v is None:
+                ctx.undecidable("C13.7", site, f"evo_res: --use_filenames "
+                                f"is not a plain flag and its effect on the "
+                                f"labels is not decided ({why})")
+                continue
+            ctx.ob("C13.7", site, v,
+                   "evo_res: --use_filenames (not a plain flag) labels the "
+                   "columns with the file names, its absence with est_name "
+                   "(end to end)" if v else f"evo_res: {why}",
+                   key=f"C13.7:{name}")
+            continue
         ctx.ob("C13.7", site, ok,
                f"evo_res: {name} is a plain store_true flag",
                key=f"C13.7:{name}")
@@ -672,7 +766,13 @@ def _tables(ctx, prog):
         loads = rg.calls("evo.tools.file_interface.load_res_file")
         ctx.require(len(loads) == 1, "load_res_file call not found")
         fa = loads[0].data["args"][0]
-        ok = fa.op == "elem" and fa.args[0] is files
+        # (list(files) / tuple(files) keep entries and order)
+        src = fa.args[0] if fa.op == "elem" else None
+        while src is not None and is_call_to(
+                src, "builtins.list", "builtins.tuple") and \
+                len(src.args[1]) == 1 and not src.args[2]:
+            src = src.args[1][0]
+        ok = fa.op == "elem" and src is files
         ctx.ob("C13.6", loads[0], ok,
                f"[merge={merge}] every given result file is loaded, in "
                f"order" if ok else
@@ -696,11 +796,26 @@ def _tables(ctx, prog):
         want = tm.ite(tm.param("use_filenames"), fa, tm.NONE)
         ok = b.get("result_obj") is loads[0].data["result"] and \
             b.get("label") is want
-        ctx.ob("C13.6", rt[0], ok,
-               "each file's result is tabulated under the file name iff "
-               "use_filenames" if ok else
-               f"result_to_df receives label {fmt(b.get('label'))}",
-               key="C13.6:label-source")
+        if not ok and g.params != ["result_files", "use_filenames", "merge"]:
+            # the loader's interface changed: judged from the command line
+            v, why = _e2e_verdict(prog)
+            if v is None:
+                ctx.undecidable("C13.6", rt[0], f"label source behind the "
+                                f"changed loader interface not decided "
+                                f"({why})")
+            else:
+                ctx.ob("C13.6", rt[0], v,
+                       "each file's result is tabulated under the file name "
+                       "iff --use_filenames (end to end through the changed "
+                       "loader interface)" if v else why,
+                       key="C13.6:label-source")
+            ok = None
+        if ok is not None:
+            ctx.ob("C13.6", rt[0], ok,
+                   "each file's result is tabulated under the file name iff "
+                   "use_filenames" if ok else
+                   f"result_to_df receives label {fmt(b.get('label'))}",
+                   key="C13.6:label-source")
         # one column per file: no keyed container of per-file frames
         keyed = [e for e in rg.of_kind("setitem")
                  if e.data["value"] is rt[0].data["result"]]
@@ -771,13 +886,24 @@ def _tables(ctx, prog):
     ok = (direct or derived) and \
         b.get("use_filenames") is A("use_filenames") and \
         b.get("merge") is A("merge")
-    ctx.ob("C13.6", ld[0], ok,
-           "evo_res: files / --use_filenames / --merge reach the loader"
-           + ("" if direct else " (file list computed from the given paths "
-              "by a helper; its expansion rules are not decided here)")
-           if ok else f"evo_res loader wiring: "
-                      f"{ {k: fmt(v) for k, v in b.items()} }",
-           key="C13.6:res:loader")
+    if not ok and (direct or derived) and b.get("merge") is A("merge") and \
+            set(b) - {"result_files", "use_filenames", "merge"}:
+        # the label option reaches the loader through an added parameter
+        v, why = _e2e_verdict(prog)
+        if v is None:
+            ctx.undecidable("C13.6", ld[0], f"evo_res loader wiring through "
+                            f"the changed interface not decided ({why})")
+            ok = None
+        else:
+            ok = v
+    if ok is not None:
+        ctx.ob("C13.6", ld[0], ok,
+               "evo_res: files / --use_filenames / --merge reach the loader"
+               + ("" if direct else " (file list computed from the given paths "
+                  "by a helper; its expansion rules are not decided here)")
+               if ok else f"evo_res loader wiring: "
+                          f"{ {k: fmt(v) for k, v in b.items()} }",
+               key="C13.6:res:loader")
     exits = [e for e in rh.calls("sys.exit")]
     sv = rh.calls(PB + "save_df_as_table")
     ctx.require(bool(sv), "evo_res: save_df_as_table call not found")
